@@ -103,6 +103,27 @@ CHECKS.update({
     ),
 })
 
+CHECKS.update({
+    "C04": (
+        "construction attempts recorded at four entry points (constructor, dict, JSON, edited AOEF document through io.load) judged by a reference predicate over arrangement specs; invariant walker over every object graph returned by io.load and by accepted constructions",
+        "accept <=> reference predicate on the arrangement, identically on every path; every instance of the constrained classes reachable from loaded / constructed graphs satisfies the invariants.",
+        "AOEF path uses edit operators with known effect on the invariants; unknown-id leniency of the loader is respected.",
+        "DESIGN.md §4 C04",
+    ),
+    "C19": (
+        "reference projection model for encoder / classification / multilabel / prediction encodings (exhaustive over small vocabularies and tag lists) with out-of-vocabulary deletion as relational re-invocation; a == b => hash(a) == hash(b) and dict/set lookups over object pairs built through different construction paths",
+        "Every encoding observed equals the stated projection; every equal pair of the eight hashable classes built via deepcopy / model_copy / constructor rebuild / pickle hashes equally.",
+        "Vocabulary tags distinct; repeated predicted tags carry one score; float32 tolerance 1e-6.",
+        "DESIGN.md §4 C19",
+    ),
+    "C20": (
+        "reference raster: vertices mapped to bins by an independent searchsorted, cell marked iff its centre lies inside the index-space polygon (shapely), closed form for boxes, overwrite order, fill, dtype, axes; all_touched superset by re-invocation",
+        "Every rasterize return in the run has the template's axes and, for areal geometries, exactly the cells the centre rule gives; one mechanism (GDAL line burning with all_touched) is an open known finding.",
+        "Cells on the index-space outline or within 1.5 bins of point/line geometries are not judged.",
+        "DESIGN.md §4 C20",
+    ),
+})
+
 NOT_YET = {}
 
 
